@@ -36,6 +36,7 @@ for c in "$@"; do
   else RES="$RES $c:silent"; fi
 done
 git -C /repo checkout -- .
+git -C /verif checkout -- coq/ApiTable.v 2>/dev/null
 git -C /repo status --short | head -3
 echo "SUMMARY name=$NAME suite[$SUITE] demo_with[$WITH] demo_without[$WITHOUT] checks[$RES]"
 echo "$RES" > "$D/checks.txt"; echo "suite[$SUITE] demo_with[$WITH] demo_without[$WITHOUT]" > "$D/validation.txt"
